@@ -107,6 +107,10 @@ structure Cfg where
   /-- `CreateTrial` keeps a trial given as INFEASIBLE completed (fixed) rather than putting it into the
       REQUESTED pool like an unfinished one (pinned commit: only SUCCEEDED was kept) -/
   createKeepsInfeasible : Bool := true
+  /-- `CheckTrialEarlyStoppingState` finishes the checked trial's operation record also when the algorithm's
+      answer cannot be applied (its metadata delta is refused) or holds no decision for that trial (fixed);
+      at the pinned commit the record stays ACTIVE in both cases -/
+  esAnswerFinishesOp : Bool := true
   deriving Repr, DecidableEq
 
 def Cfg.fixed : Cfg :=
@@ -330,6 +334,9 @@ def applyDecisions (st : Study) : List (Nat × Bool) → Study
   | [] => st
   | (id, stop) :: rest => applyDecisions (st.putEsOp { trialId := id, active := false, shouldStop := stop }) rest
 
+/-- the finished record of a check that produced no decision for the checked trial -/
+def esDone (id : Nat) : EsOp := { trialId := id, active := false, shouldStop := false }
+
 /-- the part of `CheckTrialEarlyStoppingState` after the operation record is ACTIVE: consult
     Pythia (its answer is `es`), store its metadata and decisions, read the record back -/
 def esCompute (cfg : Cfg) (st : Study) (id : Nat) (es : EsOutcome) : Resp × Study :=
@@ -340,11 +347,16 @@ def esCompute (cfg : Cfg) (st : Study) (id : Nat) (es : EsOutcome) : Resp × Stu
     else (.err .runtimeError .raw, st)         -- the operation stays ACTIVE
   | .decisions ds delta =>
     let r := st.updateMetadata cfg delta
-    if !r.1 then (.err .notFound .raw, r.2)        -- NotFoundError from update_metadata is not caught here
+    if !r.1 then
+      -- NotFoundError from update_metadata escapes; the repaired service finishes the record first
+      (.err .notFound .raw, if cfg.esAnswerFinishesOp then r.2.putEsOp (esDone id) else r.2)
     else
       let st3 := applyDecisions r.2 ds
       match esOpOf st3 id with
-      | some o => (.earlyStop o.shouldStop, st3)
+      | some o =>
+        -- still ACTIVE = the algorithm gave no decision for the checked trial
+        if o.active && cfg.esAnswerFinishesOp then (.earlyStop false, st3.putEsOp (esDone id))
+        else (.earlyStop o.shouldStop, st3)
       | none => (.err .notFound .raw, st3)
 
 /-- `CheckTrialEarlyStoppingState` after the immutability check -/
